@@ -38,6 +38,7 @@ func (ex *Exec) mapUpdate(mv, k, v Value) {
 	tt := ex.tt
 	if m.sym {
 		kt, vt := k.(*Term), v.(*Term)
+		m.src = nil
 		m.has = tt.Store(m.has, kt, tt.Bool(true))
 		m.val = tt.Store(m.val, kt, vt)
 		if !m.opaq {
@@ -80,6 +81,7 @@ func (ex *Exec) mapDelete(mv, k Value) {
 	tt := ex.tt
 	if m.sym {
 		kt := k.(*Term)
+		m.src = nil
 		m.has = tt.Store(m.has, kt, tt.Bool(false))
 		if !m.opaq {
 			var nk []*Term
